@@ -3,7 +3,7 @@
 * `Cx(re, im)`      - a complex scalar as a pair of reals; exp(i t) = (cos t, sin t); |z|^2 = re^2 + im^2.
 * complex arrays    - SymArr whose index function returns `Cx` values.
 * numpy / torch     - fftfreq, exp / angle / abs / sqrt / tan on complex or real index-function arrays, torch.complex, .real / .imag,
-                      is_complex, dtype casts (complex -> real dtype DISCARDS the imaginary part, as torch / numpy do), C-order
+                      is_complex, dtype casts (complex -> real dtype DISCARDS the imaginary part, as torch / numpy do), sgn, C-order
                       reshape / flatten, index_add_, boolean-mask assignment of +inf followed by division (x / inf = 0), stack, prod.
 * A5 (DFT axioms)   - torch.fft.fft2 / ifft2 (and the numpy twins) return a FRESH complex array F for which only these facts are
                       available: (i) Parseval in the form matching `norm` (ortho: sum|F|^2 = sum|x|^2; backward fft: sum|x|^2 =
@@ -1215,6 +1215,27 @@ def install(reg):
 
     M[torch.angle] = m_angle
     M[np.angle] = m_angle
+
+    def m_sgn(interp, x, *a, **kw):
+        """torch.sgn: z / |z| for z != 0 and 0 for z == 0 (complex); sign(x) for real x"""
+        def sg(e):
+            if isinstance(e, Cx):
+                zero = z3.And(r_term(e.re) == 0, r_term(e.im) == 0)
+                m = abs(e)
+                return Cx(V.ite(zero, 0.0, V._realdiv(e.re, m)), V.ite(zero, 0.0, V._realdiv(e.im, m)))
+            t = r_term(e)
+            return Sym(z3.If(t > 0, z3.RealVal(1), z3.If(t < 0, z3.RealVal(-1), z3.RealVal(0))))
+        if isinstance(x, SymArr):
+            r = elementwise(sg, x)
+            r.c16_cx = is_cx(x)
+            return like(r, getattr(x, "as_type", None), interp.ctx)
+        if isinstance(x, (Cx, Sym)):
+            return sg(x)
+        return NotImplemented
+
+    M[torch.sgn] = m_sgn
+    M[torch.sign] = m_sgn
+    M[np.sign] = m_sgn
 
     def m_complex(interp, re, im):
         if isinstance(re, SymArr) or isinstance(im, SymArr):
